@@ -193,10 +193,10 @@ func (c *Ctx) simWorkers(sim string) int {
 // overlapping reflected fields, and logging on after a failed sink write. Filed under the calling property.
 func jeScenarios(c *Ctx, prop string) {
 	keep := map[string]map[string]bool{
-		"C01": {"invalid-json": true, "panic": true, "entry-lost": true},
+		"C01": {"invalid-json": true, "panic": true, "entry-lost": true, "sink:hang": true},
 		"C02": {"value": true, "invalid-json": true},
 		"C08": {"value": true, "invalid-json": true, "panic": true},
-		"C10": {"invalid-json": true, "panic": true, "entry-lost": true, "value": true, "sink:not-reported": true},
+		"C10": {"invalid-json": true, "panic": true, "entry-lost": true, "value": true, "sink:not-reported": true, "sink:hang": true},
 	}[prop]
 	for rep := 0; rep < 3; rep++ {
 		fs := replayReflectOverlap()
